@@ -143,9 +143,10 @@ class Task:
         data = bytes.fromhex(spec["data"])
         self.n_input = len(data)
         buf, self.counter = make_source(spec.get("source", "bytes"), data, spec.get("chunks"), hook)
+        self.root = spec.get("root_path") or ""      # caller-chosen root path; items and error summaries are relative to it
         self.decoder = real.marshal(spec.get("front", "binary"), spec["type"], buf,
                                     cc=self._cc(spec.get("cc")), enc=spec.get("enc"),
-                                    strict=spec.get("strict", True))
+                                    strict=spec.get("strict", True), root=self.root)
         self.gen = self._tee()
         consumer = spec.get("consumer")
         if consumer == "pretty":
@@ -181,7 +182,7 @@ class Task:
                 self.decoder_raised = True      # the exception comes from the decoder stage, not from a consumer
                 raise
             self.events.append(e)
-            self.items.append(real.ev_item(e))
+            self.items.append(real.ev_item(e, self.root))
             self.pulls_at.append(self.counter.pulls if isinstance(self.counter, CountingSource) else
                                  (self.counter.pos if isinstance(self.counter, SimFile) else None))
             yield e
@@ -212,7 +213,7 @@ class Task:
                 self.remaining = None if rem is None else bytes(rem)
             except Exception as e2:
                 self.remaining = None
-            self.exc_sum = real.errsum(e)
+            self.exc_sum = real.errsum(e, root=self.root)
             self.site = real.raise_site(e)
         return False
 
